@@ -3,6 +3,7 @@ import Physt.Model.HistND
 import Physt.Model.Config
 import Physt.Model.Special
 import Physt.Model.Factories
+import Physt.Model.Plot
 /-! ND part of the line-protocol driver. -/
 open Lean (Json)
 namespace Physt.Driver
@@ -358,6 +359,46 @@ def runBinning (case : Json) : E Json := do
     pure (Json.arr (qs.map fun q => jNRat (quantile sorted q)).toArray)
   | _ => throw s!"unknown binning query {what}"
 
+/-- plot data of a 1-D histogram given by bins, contents and squared errors -/
+def runPlot (case : Json) : E Json := do
+  let what ← (← field case "what").getStr?
+  match what with
+  | "marks1d" =>
+    let bins ← getList getBin (← field case "bins")
+    let freq ← getList getRat (← field case "freq")
+    let err2 ← getList getRat (← field case "err2")
+    let density := getBoolD case "density" false
+    let cumulative := getBoolD case "cumulative" false
+    let sizes := bins.map fun b => b.2 - b.1
+    let data := getData freq sizes density cumulative
+    let bars := barMarks bins data
+    let e2 := getErr2Data err2 sizes density
+    pure (Json.mkObj [("data", jRats data),
+      ("bars", Json.arr (bars.map fun b => Json.arr #[jRat b.left, jRat b.width, jRat b.height]).toArray),
+      ("centres", Json.arr ((centreMarks bins data).map fun p => Json.arr #[jRat p.1, jRat p.2]).toArray),
+      ("step", Json.arr ((stepMarks (binsToEdges bins) data).map fun p => Json.arr #[jRat p.1, jRat p.2]).toArray),
+      ("err2", jRats e2)])
+  | "map2d" =>
+    let xb ← getList getBin (← field case "xbins")
+    let yb ← getList getBin (← field case "ybins")
+    let data ← getList getRat (← field case "data")
+    pure (Json.arr ((mapCells xb yb data).map fun c =>
+      Json.arr #[jRat c.x, jRat c.y, jRat c.dx, jRat c.dy, jRat c.value]).toArray)
+  | "ticks" =>
+    let lo ← getRat (← field case "lo")
+    let hi ← getRat (← field case "hi")
+    let w ← getRat (← field case "w")
+    pure (jRats (timeTicks lo hi w))
+  | "ascii" =>
+    let freq ← getList getRat (← field case "freq")
+    let width ← (← field case "width").getNat?
+    pure (Json.arr ((asciiBars freq width).map fun (k : Int) => Json.num k).toArray)
+  | "accepted" =>
+    let kind ← (← field case "plot_kind").getStr?
+    let nd ← (← field case "ndim").getNat?
+    pure (Json.bool (plotAccepted kind nd))
+  | _ => throw s!"unknown plot query {what}"
+
 def runCaseAll (case : Json) : E Json := do
   let kind ← (← field case "kind").getStr?
   let fo := if getBoolD case "exact" false then FloatOps.exact else FloatOps.ieee
@@ -367,6 +408,7 @@ def runCaseAll (case : Json) : E Json := do
   | "measure" => runMeasure case
   | "version" => runVersion case
   | "binning" => runBinning case
+  | "plot" => runPlot case
   | _ => runCase case
 
 def handleLineAll (line : String) : String :=
